@@ -13,6 +13,10 @@ Centre(TT, c) == [x \in 1 .. P.D |-> (TT.box[c][x][1] + TT.box[c][x][2]) \div 2]
 Dims == IF P.kind = "dbin" THEN {1} ELSE 1 .. P.D
 CutSet(pbox, dim) ==
   IF P.kind = "dbin" THEN {c \in [1 .. P.D -> 0 .. P.W] : CutsOK(P, pbox, 1, c)}
+  ELSE IF P.kind \in {"bin", "kary"}
+  THEN LET lo == pbox[dim][1]  hi == pbox[dim][2]
+           c == [j \in 1 .. K + 1 |-> lo + (j - 1) * ((hi - lo) \div K)]
+       IN IF CutsOK(P, pbox, dim, c) THEN {c} ELSE {}
   ELSE {c \in [1 .. K + 1 -> pbox[dim][1] .. pbox[dim][2]] : CutsOK(P, pbox, dim, c)}
 Splits(TT, p) == UNION {{Mk(P, TT, p, dim, cuts) : cuts \in CutSet(TT.box[p], dim)} : dim \in Dims}
 
